@@ -153,6 +153,15 @@ func (cs ClientState) UpgradeState(
 	store sdk.KVStore,
 	state exported.ConsensusState,
 ) error {
+	if _, ok := state.(*ConsensusState); !ok {
+		return sdkerrors.Wrapf(
+			clienttypes.ErrInvalidConsensus,
+			"invalid consensus state. expected type: %T, got: %T",
+			&ConsensusState{}, state,
+		)
+	}
+	// the upgraded height needs its processed time and iteration key like any other stored height
+	setConsensusMetadata(ctx, store, cs.GetLatestHeight())
 	return nil
 }
 
